@@ -145,6 +145,24 @@ class NPath:
         self.underflow = []
         if self.end != "panic":
             gs = [(g[1], g[2]) for g in self.guards if g[0] == "cmp"]
+            for g in self.guards:
+                # `match n { 0 => .., n => .. }` on an integer: the arms are facts about n as well
+                if g[0] == "sw" and not (isinstance(g[1], tuple) and g[1][0] == "discr"):
+                    try:
+                        base = nf.poly(g[1])
+                    except Exception:
+                        continue
+                    if g[2] == "==" and isinstance(g[3], int) and not isinstance(g[3], bool):
+                        gs.append((nf.pkey(nf.padd(base, {(): g[3]}, -1)), "Eq"))
+                    elif g[2] == "notin":
+                        for v in g[3]:
+                            if isinstance(v, int) and not isinstance(v, bool):
+                                gs.append((nf.pkey(nf.padd(base, {(): v}, -1)), "Ne"))
+                elif g[0] == "bool" and isinstance(g[1], tuple) and g[1][0] == "isempty":
+                    # is_empty() is len() == 0 (row S-len of C03)
+                    x0 = g[1][1]
+                    x0 = x0[1] if isinstance(x0, tuple) and x0[0] == "seqview" else x0
+                    gs.append((nf.pkey({(("L", x0),): 1}), "Eq" if g[2] else "Ne"))
             for x, y, ty, line in getattr(p, "subs", []):
                 try:
                     d = nf.padd(nf.poly(N(x)), nf.poly(N(y)), -1)
